@@ -449,7 +449,7 @@ def dipole(chk):
         a_ = r_.get("args") or []
         kw = r_.get("kwargs") or {}
         ok = len(a_) >= 3 and a_[0] == 1 and kw.get("type_mom") == "cartesian" and kw.get("return_orders") is True
-        chk.add(f"dipole/callee-pre/first-order-cartesian-moments-with-orders{sfx}", [], z3.BoolVal(bool(ok)), kind="post", func=fq, meta={"replay": rep})
+        chk.add(f"dipole/callee-pre/first-order-cartesian-moments-with-orders{sfx}", [], z3.BoolVal(bool(ok)), kind="callee-pre", func=fq, meta={"replay": rep})
         if not ok or vals is None:
             continue
         cen, dens = a_[1], a_[2]
